@@ -20,8 +20,38 @@ ASSUMPTIONS = [
 ]
 
 
+def _tie_trace(rng, rank):
+    """Two equally heavy ways into the end of a device-wide synchronisation: stream A runs K1 and later K3, stream B
+    runs K2, which starts between them; K2 and K3 end in the same microsecond. The synchronisation edges enter the
+    call's end node in stream order (A, B), the kernels' nodes were created in start order (K2 before K3)."""
+    g = rng.choice([1, 2, 5])
+    sa, sb = rng.sample([7, 13, 20, 24], 2)
+    pid, tid = 1000 + rank, 100 + rank
+    t0 = 10 * g
+    l1, l2, l3 = t0 + g, t0 + 3 * g, t0 + 5 * g
+    k1s = l1 + g * rng.choice([1, 2]); k1d = g * rng.choice([4, 6, 10])
+    k2s = max(l2 + g, k1s + g); k3s = max(k1s + k1d + g * rng.choice([0, 2, 5]), k2s + g, l3 + g)
+    k3d = g * rng.choice([3, 8, 12]); end = k3s + k3d
+    sy = l3 + 2 * g
+    ev = [{"ph": "X", "cat": "cpu_op", "name": "aten::train_step", "pid": pid, "tid": tid, "ts": t0, "dur": end + 6 * g - t0, "args": {"External id": 1}}]
+    for ts, c in ((l1, 11), (l2, 12), (l3, 13)):
+        ev.append({"ph": "X", "cat": "cuda_runtime", "name": "cudaLaunchKernel", "pid": pid, "tid": tid, "ts": ts, "dur": g, "args": {"correlation": c, "External id": c}})
+    for nm, st, ts, du, c in (("gemm_a", sa, k1s, k1d, 11), ("elementwise_b", sb, k2s, end - k2s, 12), ("gemm_c", sa, k3s, k3d, 13)):
+        ev.append({"ph": "X", "cat": "kernel", "name": nm, "pid": rank, "tid": st, "ts": ts, "dur": du, "args": {"correlation": c, "stream": st, "device": rank, "External id": c}})
+    ev.append({"ph": "X", "cat": "cuda_runtime", "name": "cudaDeviceSynchronize", "pid": pid, "tid": tid, "ts": sy, "dur": end + g * rng.choice([0, 1]) - sy, "args": {"correlation": 14, "External id": 14}})
+    ev.append({"ph": "X", "cat": "cuda_sync", "name": "Context Sync", "pid": rank, "tid": -1, "ts": sy, "dur": ev[-1]["dur"], "args": {"correlation": 14, "stream": -1, "device": rank, "External id": 14}})
+    ev.append({"ph": "X", "cat": "cpu_op", "name": "aten::after", "pid": pid, "tid": tid, "ts": end + 8 * g, "dur": 3 * g, "args": {"External id": 20}})
+    rest = ev[1:]
+    rng.shuffle(rest)
+    return [ev[0]] + rest
+
+
 def gen(rng, tier, no, wide=False):
     case = CP.gen_cp_case(rng, **({"annotation_rate": 0.3} if rng.random() < 0.3 else {}))
+    if rng.random() < 0.1:
+        r0 = case["params"]["rank"]
+        case["ranks"][r0] = _tie_trace(rng, int(r0))
+        case["params"].update({"annotation": "", "instance": None, "tie": True})
     if rng.random() < 0.08:
         # more than a thousand events ahead of the interesting ones in the file (the archive holds the frame as text;
         # whatever is inferred from its beginning must hold for its end)
